@@ -364,9 +364,9 @@ Theorem until_normal_forms : forall P start,
   (forall a, truthy a = false -> norm_until P start a = Ok None) /\
   (forall d, norm_until P start (ADate d) = Ok (Some (ensure_tz (mkDT d (d_us start) (d_tz start))))) /\
   (forall t, norm_until P start (ADateTime t) = Ok (Some (ensure_tz t))) /\
-  (forall s t, s <> "" -> is_datetime s = true -> parse_dts P s = Ok t ->
+  (forall s t, s <> EmptyString -> is_datetime s = true -> parse_dts P s = Ok t ->
                norm_until P start (AStr s) = Ok (Some t)) /\
-  (forall s t, s <> "" -> is_datetime s = false -> P s = Ok t ->
+  (forall s t, s <> EmptyString -> is_datetime s = false -> P s = Ok t ->
                norm_until P start (AStr s) = Ok (Some (ensure_tz (mkDT (d_days t) (d_us start) (d_tz start))))).
 Proof.
   intros P start. splits.
@@ -374,9 +374,9 @@ Proof.
   - reflexivity.
   - reflexivity.
   - intros s t Hne Hd Hp. unfold norm_until. cbn [truthy].
-    destruct (String.eqb_spec s ""); [contradiction|]. cbn [negb]. rewrite Hd, Hp. reflexivity.
+    destruct (String.eqb_spec s EmptyString); [contradiction|]. cbn [negb]. rewrite Hd, Hp. reflexivity.
   - intros s t Hne Hd Hp. unfold norm_until. cbn [truthy].
-    destruct (String.eqb_spec s ""); [contradiction|]. cbn [negb]. rewrite Hd, Hp. reflexivity.
+    destruct (String.eqb_spec s EmptyString); [contradiction|]. cbn [negb]. rewrite Hd, Hp. reflexivity.
 Qed.
 
 (* an aware value stays the instant it denotes: nothing is relabelled *)
